@@ -214,6 +214,14 @@ def gen_multiple(tier, rng):
     for b in (P(["q0", "q1"], [((0, 2), 1), ((1, 0), -2)]), P(["q0", "q1"], [((2, 0), 1), ((0, 1), 1)])):
         for cof in (P(["q0", "q1"], [((1, 0), 1)]), P(["q0", "q1"], [((0, 1), 1), ((0, 0), 1)]), P(["q0", "q1"], [((1, 1), 2), ((0, 0), -1)])):
             yield {"cof": cof, "b": b, "a": {"poly": model_spec(obj_map(operator.mul, operand_model(cof), operand_model(b)), "int64")}}
+    # sparse dividends of high degree: many more reduction rounds than the operands have terms
+    for k in (6, 10, 13):
+        b = P(["q0"], [((1,), 1), ((0,), -1)])                                  # q0 - 1
+        cof = P(["q0"], [((e,), 1) for e in range(k)])                          # 1 + q0 + ... + q0**(k-1)
+        yield {"cof": cof, "b": b, "a": {"poly": model_spec(obj_map(operator.mul, operand_model(cof), operand_model(b)), "int64")}}
+        b2 = P(["q0", "q1"], [((0, 1), 1), ((1, 0), -1)])                       # q1 - q0
+        cof2 = P(["q0", "q1"], [((e, k - 1 - e), 1) for e in range(k)])         # sum q0**e * q1**(k-1-e)
+        yield {"cof": cof2, "b": b2, "a": {"poly": model_spec(obj_map(operator.mul, operand_model(cof2), operand_model(b2)), "int64")}}
     for _ in range(count(tier, 100, 1000)):
         s1, s2 = rng.choice(PAIRS)
         names = rand_names(rng, (1, 2, 2, 3))
@@ -248,6 +256,9 @@ def exact_multiple(inp):
 
 # ------------------------------------------------------------------ one indeterminate: degree of the remainder
 def gen_univariate(tier, rng):
+    for k in (7, 12):          # sparse, high degree: q0**k / (q0 + 1), (q0**k + 3) / (2*q0**2 - 1)
+        yield {"a": P(["q0"], [((k,), 1)]), "b": P(["q0"], [((1,), 1), ((0,), 1)])}
+        yield {"a": P(["q0"], [((k,), 1), ((0,), 3)], "float64"), "b": P(["q0"], [((2,), 2), ((0,), -1)], "float64")}
     for _ in range(count(tier, 100, 1000)):
         s1, s2 = rng.choice(PAIRS)
         names = [rng.choice(["q0", "q1", "q2"])]
